@@ -614,3 +614,195 @@ def local_name(body, l):
         return body["locals"][l].get("name") or "_%d" % l
     except Exception:
         return "_%d" % l
+
+
+# ---------------------------------------------------------------------- expression reconstruction
+class Expr:
+    """reconstructs the value expression of an operand by following single definitions of MIR
+    temporaries.  Expressions are nested tuples:
+      ('param', i, fields)  ('const', kind, value)  ('static', path)  ('fn', path)
+      ('bin', op, a, b)  ('un', op, a)  ('cast', kind, a)  ('call', callee, (args...), block)
+      ('agg', adt|tuple|array|closure:<path>, variant, ((name, e), ...))  ('field', e, fields)
+      ('discr', e)  ('phi', (e, ...))  ('deep',)  ('unknown', why)
+    references are transparent (&x == x)."""
+
+    def __init__(self, prog, path, max_depth=14):
+        self.prog = prog
+        self.path = path
+        self.sl = prog.slicer(path)
+        self.body = prog.bodies[path]
+        self.argc = self.body["argc"]
+        self.max_depth = max_depth
+
+    def operand(self, op, depth=0):
+        c = op_const(op)
+        if c is not None:
+            if c.get("static"):
+                return ("static", c["static"])
+            if c.get("fn"):
+                return ("fn", c["fn"])
+            if c.get("closure"):
+                return ("agg", "closure:" + c["closure"], None, ())
+            if "float" in c:
+                return ("const", "float", float(c["float"]))
+            if "int" in c:
+                return ("const", "int", c["int"])
+            if "str" in c:
+                return ("const", "str", c["str"])
+            return ("const", "other", c.get("val"))
+        pl = op_place(op)
+        if pl is None:
+            return ("unknown", "operand")
+        return self.place(pl, depth)
+
+    def place(self, pl, depth=0):
+        fields = []
+        for pr in pl["p"]:
+            if isinstance(pr, dict) and "f" in pr:
+                fields.append(pr.get("name") if pr.get("name") is not None else str(pr["f"]))
+            elif isinstance(pr, dict) and "d" in pr:
+                fields.append("@" + str(pr.get("name")))
+            elif isinstance(pr, dict) and ("i" in pr or "ci" in pr):
+                fields.append("[]")
+        return self.local(pl["l"], tuple(fields), depth)
+
+    def _select(self, e, fields):
+        if not fields:
+            return e
+        if e[0] == "agg" and e[3]:
+            if fields[0].startswith("@"):
+                if e[2] is not None and fields[0][1:] == e[2]:
+                    return self._select(e, fields[1:])
+            d = dict(e[3])
+            if fields[0] in d:
+                return self._select(d[fields[0]], fields[1:])
+        if e[0] == "bin" and e[1].endswith("WithOverflow") and fields[0] == "0":
+            return self._select(("bin", e[1][:-len("WithOverflow")], e[2], e[3]), fields[1:])
+        if e[0] == "param":
+            return ("param", e[1], tuple(e[2]) + tuple(fields))
+        if e[0] == "field":
+            return ("field", e[1], tuple(e[2]) + tuple(fields))
+        if e[0] == "phi":
+            return ("phi", tuple(self._select(x, fields) for x in e[1]))
+        return ("field", e, tuple(fields))
+
+    def local(self, l, fields=(), depth=0):
+        if depth > self.max_depth:
+            return ("deep",)
+        if 1 <= l <= self.argc and not [d for d in self.sl.defs.get(l, ()) if d[0] == "assign"]:
+            return ("param", l, tuple(fields))
+        defs = self.sl.defs.get(l, ())
+        whole = []
+        partial = []
+        for d in defs:
+            if d[0] == "assign" and d[1]["dst"]["p"] and any(isinstance(x, dict) and "f" in x for x in d[1]["dst"]["p"]):
+                partial.append(d)
+            else:
+                whole.append(d)
+        # writes to single fields of a local (`_3.0 = ..`): select if they match the wanted field
+        if fields and partial:
+            hits = [d for d in partial if tuple(place_fields(d[1]["dst"]))[:1] == tuple(fields[:1])]
+            if hits and not whole:
+                es = [self._select(self._rvalue(d[1]["rv"], d[2], depth + 1), tuple(fields[len(place_fields(d[1]["dst"])):])) for d in hits]
+                return es[0] if len(es) == 1 else ("phi", tuple(es))
+        if not whole:
+            if 1 <= l <= self.argc:
+                return ("param", l, tuple(fields))
+            return ("unknown", "no def of _%d" % l)
+        es = []
+        for kind, d, bid in whole[:64]:
+            if kind == "assign":
+                es.append(self._rvalue(d["rv"], bid, depth + 1))
+            else:
+                t = d
+                if t["dst"]["l"] == l:
+                    es.append(("call", Program.callee_name(t), tuple(self.operand(a, depth + 1) for a in t["args"]), bid))
+                else:
+                    es.append(("mutated_by", Program.callee_name(t), bid))
+        # a local initialised once and then only mutated through &mut calls: report the initial value
+        base = [e for e in es if e[0] != "mutated_by"]
+        muts = [e for e in es if e[0] == "mutated_by"]
+        if len(base) == 1 and not muts:
+            return self._select(base[0], fields)
+        if len(base) == 1 and muts:
+            return self._select(("phi", tuple(base + muts)), fields)
+        return self._select(("phi", tuple(es)), fields)
+
+    def _rvalue(self, rv, bid, depth):
+        k = rv["k"]
+        if k == "use":
+            return self.operand(rv["ops"][0], depth)
+        if k in ("ref", "refmut", "rawptr"):
+            return self.place(rv["place"], depth)
+        if k == "cast":
+            return ("cast", rv.get("cast"), self.operand(rv["ops"][0], depth), rv.get("ty"))
+        if k == "bin":
+            return ("bin", rv["op"], self.operand(rv["ops"][0], depth), self.operand(rv["ops"][1], depth))
+        if k == "un":
+            return ("un", rv["op"], self.operand(rv["ops"][0], depth))
+        if k == "discr":
+            return ("discr", self.place(rv["place"], depth))
+        if k == "agg":
+            a = rv.get("agg")
+            if a == "adt":
+                names = rv.get("fields") or []
+                return ("agg", rv["adt"], rv.get("variant"), tuple((n, self.operand(o, depth)) for n, o in zip(names, rv["ops"])))
+            if a in ("closure", "coroutine"):
+                return ("agg", "closure:" + rv["closure"], None, tuple((str(i), self.operand(o, depth)) for i, o in enumerate(rv["ops"])))
+            return ("agg", a, None, tuple((str(i), self.operand(o, depth)) for i, o in enumerate(rv["ops"])))
+        if k == "repeat":
+            return ("agg", "repeat", None, (("0", self.operand(rv["ops"][0], depth)),))
+        return ("unknown", k)
+
+    def returns(self):
+        """expressions of the return value (one per definition of _0)"""
+        e = self.local(0)
+        return list(e[1]) if e[0] == "phi" else [e]
+
+
+def expr_walk(e, fn):
+    if not isinstance(e, tuple):
+        return
+    fn(e)
+    for x in e[1:]:
+        if isinstance(x, tuple):
+            if x and isinstance(x[0], str):
+                expr_walk(x, fn)
+            else:
+                for y in x:
+                    if isinstance(y, tuple) and len(y) == 2 and isinstance(y[0], str) and isinstance(y[1], tuple):
+                        expr_walk(y[1], fn)
+                    else:
+                        expr_walk(y, fn)
+
+
+def expr_str(e, depth=0):
+    if not isinstance(e, tuple) or not e:
+        return str(e)
+    k = e[0]
+    if depth > 8:
+        return "…"
+    if k == "param":
+        return "arg%d%s" % (e[1], "".join("." + f for f in e[2]))
+    if k == "const":
+        return repr(e[2])
+    if k == "bin":
+        return "(%s %s %s)" % (expr_str(e[2], depth + 1), e[1], expr_str(e[3], depth + 1))
+    if k == "un":
+        return "%s(%s)" % (e[1], expr_str(e[2], depth + 1))
+    if k == "cast":
+        return "(%s as %s)" % (expr_str(e[2], depth + 1), e[3] if len(e) > 3 else "?")
+    if k == "call":
+        name = e[1].split("::")
+        return "%s(%s)" % ("::".join(name[-2:]), ", ".join(expr_str(a, depth + 1) for a in e[2]))
+    if k == "agg":
+        return "%s{%s}" % (str(e[1]).split("::")[-1] + (("::" + e[2]) if e[2] else ""), ", ".join("%s: %s" % (n, expr_str(x, depth + 1)) for n, x in e[3]))
+    if k == "field":
+        return "%s%s" % (expr_str(e[1], depth + 1), "".join("." + f for f in e[2]))
+    if k == "phi":
+        return "phi(%s)" % " | ".join(expr_str(x, depth + 1) for x in e[1])
+    if k in ("static", "fn"):
+        return e[1].split("::")[-1]
+    if k == "discr":
+        return "discr(%s)" % expr_str(e[1], depth + 1)
+    return str(e)
